@@ -64,6 +64,16 @@ def run (t : Tier) : Emit Unit := do
     -- the Length field must not matter: same bytes as with the field set correctly
     let fixed := dl.map fun d => { d with length := calcDescriptorLength d }
     emit "C14" (writeCase dl (some (Spec.descLoopEncode fixed)) "write-loose-length")
+  -- (2b) loops that need all 12 bits of the loop length (1 KiB .. 4 KiB)
+  for n in [4, 5, 8, 12, 15] do
+    let mut ds : List Descriptor := []
+    for i in [0:n] do
+      let body ← liftGen (randBytes (if i % 2 = 0 then 255 else 254))
+      ds := ds ++ [({ tag := 0x80 + i, length := body.length, userDefined := body } : Descriptor)]
+    ds := ds ++ [{ tag := descriptorTagStreamIdentifier, length := 1, streamIdentifier := some { componentTag := n } }]
+    emit "C14" (writeCase ds (some (Spec.descLoopEncode ds)) "write-long-loop")
+    let bs := writeDescriptorsWithLength ds
+    emit "C14" (parseCase bs (some s!"ok:off={bs.length}:{showDescs (ds.map expectParsed)}") "parse-long-loop")
   -- (3) framing: a descriptor whose declared length differs from what its tag implies must not shift
   --     the parsing of the descriptors that follow (either an error, or the tail parses as it does alone)
   for _ in [0:300 * t.scale] do
